@@ -143,13 +143,14 @@ impl Property for Attribution {
     }
     fn budget(&self, tier: Tier) -> Budget {
         Budget {
-            cases: tier.pick(400_000, 30_000_000),
+            cases: tier.pick(2_000_000, 30_000_000),
             tape_len: 2000,
         }
     }
     fn decode(&self, t: &mut Tape<'_>) -> AttrCase {
         let co = ConvOpts {
             typed_parsers: true,
+            positional_terminators: true,
             ..ConvOpts::default()
         };
         decode_case(t, &co, &InvOpts::default())
